@@ -1160,3 +1160,249 @@ Fixpoint path_tree (path : list bool) (sibs : list bytes) (bottom : Merkle.tree)
   | b :: p, s :: ss => if b then Node (Leaf s) (path_tree p ss bottom) else Node (path_tree p ss bottom) (Leaf s)
   | _, _ => bottom
   end.
+
+(* ------------------------------------------------------------------ histories on one validator: the summaries cache is state *)
+
+Definition is_prefix {A} (p l : list A) : Prop := exists tl, l = p ++ tl.
+
+(* every answer of the oracle is a prefix of one (eventual) true list of summaries; errors and a missing oracle are allowed *)
+Definition oracle_consistent (truth : list bytes) (o : option (res (list bytes))) : Prop :=
+  match o with Some (Ok l) => is_prefix l truth | _ => True end.
+
+Definition ev_oracle {X Y Z} (ev : option (res (list bytes)) * X * Y * Z) : option (res (list bytes)) := fst (fst (fst ev)).
+
+Lemma get_st_fst cache oracle slot :
+  fst (get_historical_summary_st cache oracle slot) = get_historical_summary cache oracle slot.
+Proof.
+  unfold get_historical_summary_st, get_historical_summary.
+  destruct (summary_index slot <? nlen cache); [reflexivity|].
+  destruct oracle as [[l|e|]|]; try reflexivity. destruct (summary_index slot <? nlen l); reflexivity.
+Qed.
+
+Lemma get_st_cache_prefix truth cache oracle slot :
+  is_prefix cache truth -> oracle_consistent truth oracle ->
+  is_prefix (snd (get_historical_summary_st cache oracle slot)) truth.
+Proof.
+  intros Pc Po. unfold get_historical_summary_st.
+  destruct (summary_index slot <? nlen cache); [exact Pc|].
+  destruct oracle as [[l|e|]|]; try exact Pc. destruct (summary_index slot <? nlen l); [exact Po|exact Pc].
+Qed.
+
+(* whatever the provider returns is the TRUE summary of the requested index *)
+Lemma summary_is_true truth cache oracle slot r :
+  is_prefix cache truth -> oracle_consistent truth oracle ->
+  get_historical_summary cache oracle slot = Ok r ->
+  nth_error truth (N.to_nat (summary_index slot)) = Some r.
+Proof.
+  intros [tc Pc] Po. unfold get_historical_summary.
+  destruct (summary_index slot <? nlen cache).
+  - intros E. apply idxN_inv in E as [L E]. rewrite Pc. rewrite nth_error_app1; [exact E|]. unfold nlen in L. lia.
+  - destruct oracle as [[l|e|]|]; try discriminate. destruct Po as [tl Pl].
+    destruct (summary_index slot <? nlen l); [|discriminate].
+    intros E. apply idxN_inv in E as [L E]. rewrite Pl. rewrite nth_error_app1; [exact E|]. unfold nlen in L. lia.
+Qed.
+
+(* ... and every summary the cache or the oracle's answer covers is returned *)
+Lemma summary_is_known truth cache oracle slot r :
+  is_prefix cache truth -> oracle_consistent truth oracle ->
+  nth_error truth (N.to_nat (summary_index slot)) = Some r ->
+  (summary_index slot < nlen cache \/ exists l, oracle = Some (Ok l) /\ summary_index slot < nlen l) ->
+  get_historical_summary cache oracle slot = Ok r.
+Proof.
+  intros [tc Pc] Po Hn Hk. unfold get_historical_summary.
+  destruct (N.ltb_spec (summary_index slot) (nlen cache)) as [L|G].
+  - destruct (idxN_ok cache _ L) as [a [E En]]. rewrite E. f_equal.
+    rewrite Pc, nth_error_app1 in Hn by (unfold nlen in L; lia). congruence.
+  - destruct Hk as [L|[l [-> L]]]; [lia|]. cbn in Po. destruct Po as [tl Pl].
+    replace (summary_index slot <? nlen l) with true by lia.
+    destruct (idxN_ok l _ L) as [a [E En]]. rewrite E. f_equal.
+    rewrite Pl, nth_error_app1 in Hn by (unfold nlen in L; lia). congruence.
+Qed.
+
+Section History.
+  Variable H : bytes -> bytes -> bytes.
+  Notation troot := (troot H).
+  Notation siblings := (siblings H).
+  Notation Collision := (Collision H).
+  Notation tree := Merkle.tree.
+
+  Lemma validate_summaries_st_fst ge cache oracle hash p :
+    fst (validate_summaries_st H ge cache oracle hash p) = validate_summaries H ge cache oracle hash p.
+  Proof.
+    unfold validate_summaries_st, validate_summaries.
+    destruct (lift_verdict (verify_exec H ge hash (pp_exec p) (pp_root p)) E_EXEC) as [[]| |]; cbn [bind fst]; try reflexivity.
+    rewrite <- get_st_fst. destruct (get_historical_summary_st cache oracle (pp_slot p)) as [r c']. reflexivity.
+  Qed.
+
+  (* the verdict of a step is ValidateHeaderAndProof over the cache the provider holds at that moment *)
+  Theorem validate_step_verdict g epochs roots cache oracle n hash proof :
+    fst (validate_step H g epochs roots cache (oracle, n, hash, proof)) =
+    validate_header_and_proof H g epochs roots cache oracle n hash proof.
+  Proof.
+    unfold validate_step, validate_header_and_proof.
+    destruct (n <? K_MergeBlockNumber); [reflexivity|]. destruct (n <? K_ShanghaiBlockNumber); [reflexivity|].
+    destruct (n <? K_CancunNumber).
+    - destruct (decode_post 13 11 proof) as [p| |]; cbn [bind]; try reflexivity. apply validate_summaries_st_fst.
+    - destruct (decode_post 13 12 proof) as [p| |]; cbn [bind]; try reflexivity. apply validate_summaries_st_fst.
+  Qed.
+
+  Lemma validate_summaries_st_prefix truth ge cache oracle hash p :
+    is_prefix cache truth -> oracle_consistent truth oracle ->
+    is_prefix (snd (validate_summaries_st H ge cache oracle hash p)) truth.
+  Proof.
+    intros Pc Po. unfold validate_summaries_st.
+    destruct (lift_verdict (verify_exec H ge hash (pp_exec p) (pp_root p)) E_EXEC) as [[]| |]; cbn [snd]; try exact Pc.
+    pose proof (get_st_cache_prefix truth cache oracle (pp_slot p) Pc Po) as P.
+    destruct (get_historical_summary_st cache oracle (pp_slot p)) as [r c']. exact P.
+  Qed.
+
+  Lemma validate_step_prefix truth g epochs roots cache ev :
+    is_prefix cache truth -> oracle_consistent truth (ev_oracle ev) ->
+    is_prefix (snd (validate_step H g epochs roots cache ev)) truth.
+  Proof.
+    destruct ev as [[[oracle n] hash] proof]. unfold ev_oracle. cbn [fst]. intros Pc Po. unfold validate_step.
+    destruct (n <? K_MergeBlockNumber); [exact Pc|]. destruct (n <? K_ShanghaiBlockNumber); [exact Pc|].
+    destruct (n <? K_CancunNumber).
+    - destruct (decode_post 13 11 proof) as [p| |]; try exact Pc. apply validate_summaries_st_prefix; assumption.
+    - destruct (decode_post 13 12 proof) as [p| |]; try exact Pc. apply validate_summaries_st_prefix; assumption.
+  Qed.
+
+  (* INVARIANT of every history: after every call the cache is a prefix of the true list *)
+  Theorem history_cache_is_true_prefix truth g epochs roots : forall evs cache,
+    is_prefix cache truth -> Forall (fun ev => oracle_consistent truth (ev_oracle ev)) evs ->
+    Forall (fun vc => is_prefix (snd vc) truth) (run_history H g epochs roots cache evs).
+  Proof.
+    induction evs as [|ev rest IH]; intros cache Pc F; cbn [run_history]; [constructor|].
+    inversion F as [|? ? Fe Fr]; subst.
+    pose proof (validate_step_prefix truth g epochs roots cache ev Pc Fe) as P.
+    destruct (validate_step H g epochs roots cache ev) as [v c']. cbn [snd] in P.
+    constructor; [exact P|]. apply IH; assumption.
+  Qed.
+
+  (* era shapes of the two summary eras *)
+  Definition summary_era (n : N) (ne : nat) (ge : N) : Prop :=
+    (K_ShanghaiBlockNumber <= n /\ n < K_CancunNumber /\ ne = 11%nat /\ ge = 3228) \/ (K_CancunNumber <= n /\ ne = 12%nat /\ ge = 6444).
+
+  Lemma summary_era_dispatch g epochs roots cache oracle n hash proof ne ge :
+    summary_era n ne ge ->
+    validate_header_and_proof H g epochs roots cache oracle n hash proof =
+    bind (decode_post 13 ne proof) (validate_summaries H ge cache oracle hash).
+  Proof.
+    intros Hera. unfold validate_header_and_proof. pose proof K_eras_ordered as (O1 & O2 & _).
+    destruct Hera as [(G1 & L2 & -> & ->)|(G2 & -> & ->)].
+    - replace (n <? K_MergeBlockNumber) with false by lia. replace (n <? K_ShanghaiBlockNumber) with false by lia.
+      replace (n <? K_CancunNumber) with true by lia. reflexivity.
+    - replace (n <? K_MergeBlockNumber) with false by lia. replace (n <? K_ShanghaiBlockNumber) with false by lia.
+      replace (n <? K_CancunNumber) with false by lia. reflexivity.
+  Qed.
+
+  (* one step, any cache that is a prefix of the true list (= roots of ttrees), any consistent oracle answer: acceptance fixes
+     the position inside the TRUE summary of index (slot - capella_start)/8192 *)
+  Theorem step_accept_summary_eras g epochs roots ttrees cache oracle n hash proof ne ge :
+    summary_era n ne ge ->
+    is_prefix cache (map troot ttrees) -> oracle_consistent (map troot ttrees) oracle ->
+    fst (validate_step H g epochs roots cache (oracle, n, hash, proof)) = Ok tt ->
+    exists p st, decode_post 13 ne proof = Ok p /\
+      nth_error ttrees (N.to_nat (summary_index (pp_slot p))) = Some st /\
+      forall bt es,
+        subtree st (path_of 13 (K_epochSize + pp_slot p mod K_epochSize)) = Some bt ->
+        subtree bt (path_of ne ge) = Some es ->
+        troot es = hash \/ Collision.
+  Proof.
+    intros Hera Pc Po. rewrite validate_step_verdict, (summary_era_dispatch _ _ _ _ _ _ _ _ _ _ Hera).
+    destruct (decode_post_cases 13 ne proof) as [[_ E]|[_ [p [E [Lb [Le _]]]]]]; rewrite E; cbn [bind]; [discriminate|].
+    unfold validate_summaries.
+    destruct (lift_verdict (verify_exec H ge hash (pp_exec p) (pp_root p)) E_EXEC) as [[]| |] eqn:Ex; cbn [bind]; try discriminate.
+    apply lift_verdict_ok in Ex.
+    destruct (get_historical_summary cache oracle (pp_slot p)) as [r| |] eqn:Es; cbn [bind]; try discriminate.
+    apply (summary_is_true _ _ _ _ _ Pc Po) in Es. apply nth_error_map_inv in Es as [st [Est ->]].
+    intros X. apply lift_verdict_ok in X.
+    exists p, st. split; [reflexivity|]. split; [exact Est|]. intros bt es Hb He.
+    eapply two_stage_sound; [exact Ex|exact X|exact Hb|rewrite Le; exact He].
+  Qed.
+
+  (* one step: the honest proof for a slot whose summary the cache or the oracle's answer covers is accepted *)
+  Theorem step_honest_summary_eras g epochs roots ttrees cache oracle n ne ge slot st bt es bsibs esibs :
+    summary_era n ne ge -> slot < two64 ->
+    is_prefix cache (map troot ttrees) -> oracle_consistent (map troot ttrees) oracle ->
+    nth_error ttrees (N.to_nat (summary_index slot)) = Some st ->
+    (summary_index slot < nlen cache \/ exists l, oracle = Some (Ok l) /\ summary_index slot < nlen l) ->
+    subtree st (path_of 13 (K_epochSize + slot mod K_epochSize)) = Some bt ->
+    siblings st (path_of 13 (K_epochSize + slot mod K_epochSize)) = Some bsibs ->
+    subtree bt (path_of ne ge) = Some es ->
+    siblings bt (path_of ne ge) = Some esibs ->
+    Forall len32 bsibs -> Forall len32 esibs -> len32 (troot bt) ->
+    fst (validate_step H g epochs roots cache (oracle, n, troot es, encode_post (rev bsibs) (troot bt) (rev esibs) slot)) = Ok tt.
+  Proof.
+    intros Hera Hslot Pc Po Est Hk Hb Hbs He Hes Fb Fe Hr.
+    rewrite validate_step_verdict, (summary_era_dispatch _ _ _ _ _ _ _ _ _ _ Hera).
+    pose proof (siblings_length H _ _ _ Hbs) as Lb. rewrite path_of_length in Lb.
+    pose proof (siblings_length H _ _ _ Hes) as Le. rewrite path_of_length in Le.
+    pose proof (decode_post_encode (rev bsibs) (troot bt) (rev esibs) slot (Forall_rev _ _ Fb) Hr (Forall_rev _ _ Fe) Hslot) as Ed.
+    rewrite !rev_length, Lb, Le in Ed. rewrite Ed. cbn [bind].
+    unfold validate_summaries. cbn [pp_exec pp_root pp_beacon pp_slot].
+    destruct (two_stage_complete H ge ne 13 _ _ _ _ _ _ Hb Hbs He Hes) as [Ex Ebr].
+    rewrite Ex. cbn [lift_verdict bind].
+    rewrite (summary_is_known _ _ _ _ (troot st) Pc Po); [|rewrite nth_error_map, Est; reflexivity|exact Hk].
+    cbn [bind]. change 13 with (N.of_nat 13). rewrite Ebr. reflexivity.
+  Qed.
+
+  (* EVERY step of EVERY history with consistent oracle answers: call number k (0-based) accepted => position in the true summary *)
+  Theorem history_accept_summary_eras g epochs roots ttrees : forall evs cache k oracle n hash proof ne ge,
+    is_prefix cache (map troot ttrees) ->
+    Forall (fun ev => oracle_consistent (map troot ttrees) (ev_oracle ev)) evs ->
+    nth_error evs k = Some (oracle, n, hash, proof) ->
+    summary_era n ne ge ->
+    option_map fst (nth_error (run_history H g epochs roots cache evs) k) = Some (Ok tt) ->
+    exists p st, decode_post 13 ne proof = Ok p /\
+      nth_error ttrees (N.to_nat (summary_index (pp_slot p))) = Some st /\
+      forall bt es,
+        subtree st (path_of 13 (K_epochSize + pp_slot p mod K_epochSize)) = Some bt ->
+        subtree bt (path_of ne ge) = Some es ->
+        troot es = hash \/ Collision.
+  Proof.
+    induction evs as [|ev rest IH]; intros cache k oracle n hash proof ne ge Pc F Hk Hera; [destruct k; discriminate|].
+    inversion F as [|? ? Fe Fr]; subst. cbn [run_history].
+    pose proof (validate_step_prefix _ g epochs roots cache ev Pc Fe) as P.
+    destruct (validate_step H g epochs roots cache ev) as [v c'] eqn:Ev. cbn [snd] in P.
+    destruct k as [|k]; cbn [nth_error option_map fst].
+    - cbn [nth_error] in Hk. inversion Hk; subst ev. intros X. inversion X; subst v.
+      apply (step_accept_summary_eras g epochs roots ttrees cache oracle n hash proof ne ge Hera Pc Fe). rewrite Ev. reflexivity.
+    - cbn [nth_error] in Hk. eapply IH; eassumption.
+  Qed.
+
+  (* ... and the honest proof is accepted at every step at which its summary is covered by the cache of that moment or by the
+     oracle's answer of that step (cache_at = the cache before call k) *)
+  Fixpoint cache_before g epochs roots (cache : list bytes) (evs : list (event)) (k : nat) : list bytes :=
+    match k, evs with
+    | S k', ev :: rest => cache_before g epochs roots (snd (validate_step H g epochs roots cache ev)) rest k'
+    | _, _ => cache
+    end.
+
+  Theorem history_honest_summary_eras g epochs roots ttrees : forall evs cache k oracle n ne ge slot st bt es bsibs esibs,
+    is_prefix cache (map troot ttrees) ->
+    Forall (fun ev => oracle_consistent (map troot ttrees) (ev_oracle ev)) evs ->
+    nth_error evs k = Some (oracle, n, troot es, encode_post (rev bsibs) (troot bt) (rev esibs) slot) ->
+    summary_era n ne ge -> slot < two64 ->
+    nth_error ttrees (N.to_nat (summary_index slot)) = Some st ->
+    (summary_index slot < nlen (cache_before g epochs roots cache evs k) \/ exists l, oracle = Some (Ok l) /\ summary_index slot < nlen l) ->
+    subtree st (path_of 13 (K_epochSize + slot mod K_epochSize)) = Some bt ->
+    siblings st (path_of 13 (K_epochSize + slot mod K_epochSize)) = Some bsibs ->
+    subtree bt (path_of ne ge) = Some es ->
+    siblings bt (path_of ne ge) = Some esibs ->
+    Forall len32 bsibs -> Forall len32 esibs -> len32 (troot bt) ->
+    option_map fst (nth_error (run_history H g epochs roots cache evs) k) = Some (Ok tt).
+  Proof.
+    induction evs as [|ev rest IH]; intros cache k oracle n ne ge slot st bt es bsibs esibs Pc F Hk; [destruct k; discriminate|].
+    inversion F as [|? ? Fe Fr]; subst. cbn [run_history].
+    pose proof (validate_step_prefix _ g epochs roots cache ev Pc Fe) as P.
+    destruct k as [|k].
+    - cbn [nth_error] in Hk. inversion Hk; subst ev. cbn [cache_before]. intros Hera Hslot Est Hkn Hb Hbs He Hes Fb Fe' Hr.
+      pose proof (step_honest_summary_eras g epochs roots ttrees cache oracle n ne ge slot st bt es bsibs esibs
+                    Hera Hslot Pc Fe Est Hkn Hb Hbs He Hes Fb Fe' Hr) as S.
+      destruct (validate_step H g epochs roots cache _) as [v c']. cbn [nth_error option_map fst] in *. now rewrite S.
+    - cbn [nth_error] in Hk. cbn [cache_before]. intros Hera Hslot Est Hkn Hb Hbs He Hes Fb Fe' Hr.
+      destruct (validate_step H g epochs roots cache ev) as [v c'] eqn:Ev. cbn [snd] in *. cbn [nth_error].
+      eapply IH; eassumption.
+  Qed.
+End History.
